@@ -208,7 +208,7 @@ def detected_notification_unit(M):
 def build(tier, mutate=None):
     C = c19w.copies_zc(BA.copies(mutate), mutate)
     R = c19w.reals_zc(BA.reals())
-    nw, depth = (2, 4) if tier != "thorough" else (3, 5)
+    plans = [(2, 4)] if tier != "thorough" else [(2, 5), (3, 4)]
     units = [
         Unit("parse/HomeKitAdvertisement", parse_unit(C), parse_unit(R), split=True,
              bounds={"length": "0..24 (symbolic)", "bytes": "all symbolic except the 6 id bytes"}, regions=["ValueError", "parsed", "setup-hash"]),
@@ -222,10 +222,12 @@ def build(tier, mutate=None):
              regions=NOTE_KINDS),
     ]
     for World in (c19w.BleWorld, c19w.MdnsWorld):
-        units.append(Unit("waiters/%s" % World.name, c19w.waiter_unit(C, World, nw, depth), c19w.waiter_unit(R, World, nw, depth), split=True,
-                          bounds={"waiters": nw, "ids": 2, "events": depth, "event alphabet": c19w.EVENTS2 if nw == 2 else c19w.EVENTS3,
-                                  "resume order of simultaneously ready waiters": "both", "pairing loaded for the advertised id": "yes / no"},
-                          regions=["woken", "timed-out", "cancelled"], diff_sample=400))
+        for nw, depth in plans:
+            units.append(Unit("waiters/%s/%d-waiters,%d-events" % (World.name, nw, depth), c19w.waiter_unit(C, World, nw, depth), c19w.waiter_unit(R, World, nw, depth), split=True,
+                              bounds={"waiters": nw, "ids": 2, "events": depth, "event alphabet": c19w.EVENTS2 if nw == 2 else c19w.EVENTS3,
+                                      "resume order of simultaneously ready waiters": "both", "wake-ups": "at once, or after the next callback",
+                                      "pairing loaded for the advertised id": "yes / no"},
+                              regions=["woken", "timed-out", "cancelled"], diff_sample=400, max_paths=3000000))
     units.append(Unit("parse/HomeKitService.from_service_info", c19w.mdns_parse_unit(C), c19w.mdns_parse_unit(R),
                       bounds={"address lists": c19w.ADDRS, "key spelling": "lower/upper/mixed", "id spelling": "lower/upper", "numbers": "present/absent"},
                       regions=["parsed", "refused"], diff_sample=400))
@@ -233,9 +235,9 @@ def build(tier, mutate=None):
 
 
 CANARIES = [
-    ("BLE waiter not registered", {BA.CTL: lambda s: s.replace("        self._ble_futures.setdefault(device_id, []).append(future)\n", "")}, lambda n: n == "waiters/ble"),
-    ("BLE set_result on finished futures", {BA.CTL: lambda s: s.replace("                if not future.done():\n                    future.set_result(discovery)", "                future.set_result(discovery)")}, lambda n: n == "waiters/ble"),
-    ("mDNS waiters looked up by the raw id", {c19w.ZC: lambda s: s.replace("        device_id = device_id.lower()\n\n        if discovery := self.discoveries.get(device_id):", "        if discovery := self.discoveries.get(device_id):")}, lambda n: n == "waiters/mdns"),
+    ("BLE waiter not registered", {BA.CTL: lambda s: s.replace("        self._ble_futures.setdefault(device_id, []).append(future)\n", "")}, lambda n: n.startswith("waiters/ble")),
+    ("BLE set_result on finished futures", {BA.CTL: lambda s: s.replace("                if not future.done():\n                    future.set_result(discovery)", "                future.set_result(discovery)")}, lambda n: n.startswith("waiters/ble")),
+    ("mDNS waiters looked up by the raw id", {c19w.ZC: lambda s: s.replace("        device_id = device_id.lower()\n\n        if discovery := self.discoveries.get(device_id):", "        if discovery := self.discoveries.get(device_id):")}, lambda n: n.startswith("waiters/mdns")),
     ("mDNS link-local addresses kept", {c19w.ZC: lambda s: s.replace("if not ip_addr.is_link_local and not ip_addr.is_unspecified", "if not ip_addr.is_unspecified")}, lambda n: n.startswith("parse/HomeKitService")),
     ("minimum length 15 -> 14", {BA.MFR: lambda s: s.replace("        if len(data) < 15:", "        if len(data) < 14:")}, lambda n: n.startswith("parse/HomeKitAdv") or n.startswith("callback/_device_detected/adv")),
     ("state and config number swapped", {BA.MFR: lambda s: s.replace("acid, gsn, cn, cv = UNPACK_HHBB(data[9:15])", "acid, cn, gsn, cv = UNPACK_HHBB(data[9:15])")}, lambda n: n.startswith("parse/HomeKitAdv")),
